@@ -8,7 +8,7 @@ P = {
     "rule": "case = (class, type family, seed); all numbers of a case come from a fixed stream seeded from the tape; exact class: one over-determined fully-known scenario (dims 1..3, 1..3 frequencies, sigma_nf 1e-6..1e-2, sigma_tr 0 or 1e-5..1e-1, linear sigma(f) given as 1 value / on the calibration grid / on an own 2-point or 5-point grid); noisy batch: 400 scenarios with complex Gaussian noise of exactly the declared size; outlier batch: 100 scenarios with one standard displaced by 100 sigma; non-trivial = every batch, and exact cases with sigma_tr != 0, an own noise grid or a column-system type; distinct = distinct choice tapes",
     "assumptions": COMMON_ASSUME + ["rejection-rate bands: alpha=.05 -> 1..125 of 400, alpha=.01 -> 0..45 of 400 (true rate within [alpha/4, 4 alpha] accepted, >= 0.5 rejected, each with probability > 1 - 1e-9); outliers: >= 90 of 100 rejected"],
     "tiers": tiers(
-        quick=[{"name": "rand", "mode": "run", "count": 100, "max_size": 60, "shards": 16, "max_seconds": 80, "shrink_seconds": 90, "hang_seconds": 120}],
+        quick=[{"name": "rand", "mode": "run", "count": 80, "max_size": 60, "shards": 16, "max_seconds": 70, "shrink_seconds": 90, "hang_seconds": 120}],
         thorough=[{"name": "rand", "mode": "run", "count": 3000, "max_size": 100, "shards": 16, "max_seconds": 1500, "shrink_seconds": 300, "hang_seconds": 120}],
     ),
 }
